@@ -238,6 +238,7 @@ type vttRender struct {
 	regionsBeforeStyles bool
 	blankInStyle        bool
 	idMix               uint64
+	voiceClass          bool
 }
 
 func (o vttRender) String() string {
@@ -254,7 +255,7 @@ func (o vttRender) idKindOf(k int) int {
 
 func vttGenRender(r *fw.Rand) vttRender {
 	return vttRender{eol: fw.Pick(r, []string{"\n", "\r\n", "\r"}), bom: r.P(1, 3), idKind: fw.Pick(r, []int{0, 3, 3, 1, 2}), idMix: r.U64(), shortTime: r.Bool(), tabs: r.P(1, 3),
-		header: fw.Pick(r, []string{"", "", " - Some title", "\ttitle"}), mapFirst: r.Bool(), tsBeforeTags: r.Bool(), closeVoice: r.Bool(), noteBeforeRegions: r.P(1, 4), escAll: r.Bool(), regionsBeforeStyles: r.Bool(), blankInStyle: r.P(1, 4)}
+		header: fw.Pick(r, []string{"", "", " - Some title", "\ttitle"}), mapFirst: r.Bool(), tsBeforeTags: r.Bool(), closeVoice: r.Bool(), noteBeforeRegions: r.P(1, 4), escAll: r.Bool(), regionsBeforeStyles: r.Bool(), blankInStyle: r.P(1, 4), voiceClass: r.P(1, 3)}
 }
 
 func vttFmtTime(msv int64, short bool) string {
@@ -415,7 +416,11 @@ func vttRenderDoc(m vttModel, o vttRender, r *fw.Rand) []byte {
 		}
 		for li, line := range c.Lines {
 			if line.Voice != "" {
-				b.WriteString("<v " + line.Voice + ">")
+				if o.voiceClass {
+					b.WriteString("<v.loud.fast " + line.Voice + ">") // classes on the voice tag do not change the voice name
+				} else {
+					b.WriteString("<v " + line.Voice + ">")
+				}
 			}
 			for si, seg := range line.Segs {
 				following := ""
